@@ -815,6 +815,14 @@ fn vbin_rt<T: serde::Serialize + serde::de::DeserializeOwned>(v: &T) -> Result<T
     crate::vbin::from_slice(&s).map_err(|e| e.to_string())
 }
 
+/// structs as maps keyed by field index / by field name as bytes (see `vbin::StructMode`)
+fn keyed_rt<T: serde::Serialize + serde::de::DeserializeOwned>(v: &T, mode: crate::vbin::StructMode) -> Result<T, String> {
+    let s = crate::vbin::to_vec_mode(v, mode).map_err(|e| format!("{:?}: {}", mode, e))?;
+    crate::vbin::from_slice_mode(&s, mode).map_err(|e| format!("{:?}: {}", mode, e))
+}
+
+const KEYED: [crate::vbin::StructMode; 2] = [crate::vbin::StructMode::IndexKeys, crate::vbin::StructMode::ByteKeys];
+
 fn fa_set_eq(a: &fasta::RecordSet, b: &fasta::RecordSet) -> Result<usize, String> {
     if a.len() != b.len() {
         return Err(format!("len {} vs {}", a.len(), b.len()));
@@ -876,15 +884,17 @@ pub fn c19(ctx: &Ctx, rep: &mut Report) {
                     json_rt(&r).and_then(|x| if x == r { Ok(()) } else { Err("json: owned record differs".into()) })
                         .and_then(|_| cbor_rt(&r).and_then(|x| if x == r { Ok(()) } else { Err("cbor: owned record differs".into()) }))
                         .and_then(|_| vbin_rt(&r).map_err(|e| format!("compact: {}", e)).and_then(|x| if x == r { Ok(()) } else { Err("compact: owned record differs".into()) }))
+                        .and_then(|_| KEYED.iter().try_for_each(|m| keyed_rt(&r, *m).and_then(|x| if x == r { Ok(()) } else { Err(format!("{:?}: owned record differs", m)) })))
                 }
                 Fmt::Fastq => {
                     let r = fastq::OwnedRecord { head: rb(&mut rng, 30), seq: rb(&mut rng, 60), qual: rb(&mut rng, 60) };
                     json_rt(&r).and_then(|x| if x == r { Ok(()) } else { Err("json: owned record differs".into()) })
                         .and_then(|_| cbor_rt(&r).and_then(|x| if x == r { Ok(()) } else { Err("cbor: owned record differs".into()) }))
                         .and_then(|_| vbin_rt(&r).map_err(|e| format!("compact: {}", e)).and_then(|x| if x == r { Ok(()) } else { Err("compact: owned record differs".into()) }))
+                        .and_then(|_| KEYED.iter().try_for_each(|m| keyed_rt(&r, *m).and_then(|x| if x == r { Ok(()) } else { Err(format!("{:?}: owned record differs", m)) })))
                 }
             };
-            rep.add("owned_records_roundtripped", 3);
+            rep.add("owned_records_roundtripped", 5);
             if let Err(m) = res {
                 rep.violation(&format!("{}-owned-record", fmt.name()), m, replay.clone());
             }
@@ -927,7 +937,11 @@ pub fn c19(ctx: &Ctx, rep: &mut Report) {
                         // a clone of the set serialises like the set
                         let d = vbin_rt(&set.clone()).map_err(|e| format!("compact(clone): {}", e))?;
                         fa_set_eq(&set, &d).map_err(|e| format!("compact(clone): {}", e))?;
-                        sets += 3;
+                        for m in KEYED {
+                            let k = keyed_rt(&set, m)?;
+                            fa_set_eq(&set, &k).map_err(|e| format!("{:?}: {}", m, e))?;
+                        }
+                        sets += 5;
                     }
                 }
                 Fmt::Fastq => {
@@ -951,7 +965,11 @@ pub fn c19(ctx: &Ctx, rep: &mut Report) {
                         fq_set_eq(&set, &c).map_err(|e| format!("compact: {}", e))?;
                         let d = vbin_rt(&set.clone()).map_err(|e| format!("compact(clone): {}", e))?;
                         fq_set_eq(&set, &d).map_err(|e| format!("compact(clone): {}", e))?;
-                        sets += 3;
+                        for m in KEYED {
+                            let k = keyed_rt(&set, m)?;
+                            fq_set_eq(&set, &k).map_err(|e| format!("{:?}: {}", m, e))?;
+                        }
+                        sets += 5;
                     }
                 }
             }
@@ -970,7 +988,7 @@ pub fn c19(ctx: &Ctx, rep: &mut Report) {
                     h.bytes(&bytes).u64(cap as u64).u64(exact.unwrap_or(0) as u64);
                     rep.nontrivial.insert(h.finish());
                     if rep.want_sample() && bytes.len() < 120 {
-                        rep.sample(json!({"format": fmt.name(), "input": show(&bytes), "capacity": cap, "sets_roundtripped": sets, "formats": ["json", "cbor", "compact (vbin, not self-describing)"]}));
+                        rep.sample(json!({"format": fmt.name(), "input": show(&bytes), "capacity": cap, "sets_roundtripped": sets, "formats": ["json", "cbor", "compact positional (vbin)", "vbin with integer field keys", "vbin with byte-string field keys"]}));
                     }
                 }
             }
